@@ -1,30 +1,33 @@
 #!/bin/bash
-# runs every check against every confirmed seeded change on a scratch worktree; writes /verif/seeded_raw/matrix.tsv
+# Runs every check against every confirmed seeded change on a scratch worktree of /repo; writes seeded_raw/matrix.tsv
+# (copied to /tmp/matrix_result.tsv at the end). Start it with `vp run -- tools/seed_matrix.sh`: that runs from a snapshot
+# of the committed /verif, so editing /verif meanwhile does not disturb it. Builds its own tools first.
+ROOT=$(cd "$(dirname "$0")/.." && pwd)
+cd "$ROOT" || exit 2
+./setup.sh > /tmp/matrix_setup.log 2>&1 || { echo "setup failed"; exit 2; }
 WT=/tmp/repo_matrix
 git -C /repo worktree remove --force $WT 2>/dev/null; git -C /repo worktree prune
 git -C /repo worktree add -q --detach $WT HEAD || exit 2
 export VERIF_REPO=$WT
-OUT=/verif/seeded_raw/matrix.tsv
+OUT=$ROOT/seeded_raw/matrix.tsv
 : > $OUT
 PROPS="C01 C02 C03 C04 C05 C06 C07 C08 C09 C10 C11 C12 C13 C14 C16"
-for d in /verif/seeded_raw/C*/[12]/; do
+for d in $ROOT/seeded_raw/C*/[12]/; do
   id=$(basename $(dirname $d))-$(basename $d)
   git -C $WT checkout -q -- .
   git -C $WT apply $d/patch.diff || { echo -e "$id\tAPPLY-FAILED" >> $OUT; continue; }
   row="$id"
   for p in $PROPS; do
-    /verif/run check $p > /tmp/matrix_run.log 2>&1; rc=$?
+    ./run check $p > /tmp/matrix_run.log 2>&1; rc=$?
     row="$row\t$p=$rc"
   done
   echo -e "$row" >> $OUT
   echo -e "$row"
+  cp $OUT /tmp/matrix_result.tsv
 done
 git -C $WT checkout -q -- .
-# the unchanged tree must be silent
 row="unchanged"
-for p in $PROPS; do /verif/run check $p > /tmp/matrix_run.log 2>&1; row="$row\t$p=$?"; done
+for p in $PROPS; do ./run check $p > /tmp/matrix_run.log 2>&1; row="$row\t$p=$?"; done
 echo -e "$row" >> $OUT; echo -e "$row"
 git -C /repo worktree remove --force $WT
-# the evidence files now describe scratch runs: restore the committed ones
-git -C /verif checkout -- evidence
-find /verif/replays -name '*.json' -delete
+cp $OUT /tmp/matrix_result.tsv
